@@ -146,9 +146,15 @@ func (e *Engine) intrinsic(st *State, fn *ssa.Function, full string, args []Valu
 			panic(&PruneCase{})
 		case "vfSameObject":
 			// do two byte slices denote the same region?
-			a, _ := args[0].(SliceV).P.single()
-			b, _ := args[1].(SliceV).P.single()
-			return BoolV{c.Bool(a.Obj == b.Obj && a.Obj != nil)}, true
+			same := c.False
+			for _, aa := range args[0].(SliceV).P.Alts {
+				for _, bb := range args[1].(SliceV).P.Alts {
+					if aa.Obj != nil && aa.Obj == bb.Obj {
+						same = c.Or(same, c.And(aa.G, bb.G))
+					}
+				}
+			}
+			return BoolV{same}, true
 		case "vfOffsetOf":
 			// byte offset of slice start inside its region
 			a, ok := args[0].(SliceV).P.single()
@@ -158,12 +164,20 @@ func (e *Engine) intrinsic(st *State, fn *ssa.Function, full string, args []Valu
 			return IntV{selTerm(c, a.Path[len(a.Path)-1])}, true
 		case "vfOffsetIn":
 			// byte offset of slice a inside the region that slice r starts at; -1 if elsewhere
-			a, ok := args[0].(SliceV).P.single()
-			r, ok2 := args[1].(SliceV).P.single()
-			if !ok || !ok2 || a.Obj == nil || a.Obj != r.Obj {
-				return IntV{c.BV(^uint64(0), 64)}, true
+			res := c.BV(^uint64(0), 64)
+			for _, ra := range args[1].(SliceV).P.Alts {
+				if ra.Obj == nil {
+					continue
+				}
+				for _, aa := range args[0].(SliceV).P.Alts {
+					if aa.Obj != ra.Obj {
+						continue
+					}
+					d := c.Sub(selTerm(c, aa.Path[len(aa.Path)-1]), selTerm(c, ra.Path[len(ra.Path)-1]))
+					res = c.Ite(c.And(aa.G, ra.G), d, res)
+				}
 			}
-			return IntV{c.Sub(selTerm(c, a.Path[len(a.Path)-1]), selTerm(c, r.Path[len(r.Path)-1]))}, true
+			return IntV{res}, true
 		case "vfOffsetOfPtr":
 			a, ok := args[0].(PtrV).single()
 			if !ok || a.Obj == nil {
